@@ -90,17 +90,17 @@ def mode_a_collect(jobs):
 
 # generators: (cfg, simulated traces quick/thorough (None = BFS), behaviours replayed quick/thorough, depth)
 GENERATORS = [
-    ("Layout.c03.sim.cfg",       (40, 400),  (9, 80), 18),
-    ("Layout.c03.sparse.cfg",    (40, 400),  (9, 80), 18),
-    ("Layout.c03.script.cfg",    None,       (12, 120), None),
-    ("Layout.sched.levels.cfg",  (20, 300),  (7, 60), 20),
-    ("Layout.sched.group3.cfg",  (20, 200),  (6, 40), 20),
-    ("Layout.sched.full.cfg",    (20, 200),  (5, 40), 20),
-    ("Layout.sched.merge.cfg",   (20, 200),  (6, 40), 20),
-    ("Layout.sched.ds1.cfg",     (20, 200),  (5, 40), 20),
-    ("Layout.sched.ds2.cfg",     (20, 200),  (5, 40), 20),
-    ("Layout.sched.ds3.cfg",     (20, 200),  (5, 40), 20),
-    ("Layout.sched.dsdense.cfg", (12, 120),  (4, 24), 20),
+    ("Layout.c03.sim.cfg",       (40, 250),  (9, 50), 18),
+    ("Layout.c03.sparse.cfg",    (40, 250),  (9, 50), 18),
+    ("Layout.c03.script.cfg",    None,       (12, 70), None),
+    ("Layout.sched.levels.cfg",  (20, 150),  (7, 36), 20),
+    ("Layout.sched.group3.cfg",  (20, 120),  (6, 24), 20),
+    ("Layout.sched.full.cfg",    (20, 120),  (5, 24), 20),
+    ("Layout.sched.merge.cfg",   (20, 120),  (6, 24), 20),
+    ("Layout.sched.ds1.cfg",     (20, 120),  (5, 24), 20),
+    ("Layout.sched.ds2.cfg",     (20, 120),  (5, 24), 20),
+    ("Layout.sched.ds3.cfg",     (20, 120),  (5, 24), 20),
+    ("Layout.sched.dsdense.cfg", (12, 80),   (4, 16), 20),
 ]
 
 
@@ -395,6 +395,7 @@ def run(tier, seed):
         "max-rows-per-segment in {default, 2, 3, 5}; a down-sample of sparse columns only with single-segment chunks (open finding F-C03-3)",
         "down-sample: level 1 of a shard without out-of-order files whose files share no window per series; aggregates first/last/min/max/count",
         "the compaction scheduler is kept alive by switching reorganisations with the store's enable flags (open finding F-C03-2)",
+        "sequential histories: the Sequencer is loaded right after every open, as the index flush and the Sequencer reload after a write are waited for (open finding F-C02-3)",
     ])
     return 1 if bad else 0
 
